@@ -199,10 +199,22 @@ package queue
 //@   ensures [C12:none_left] !result ==> (forall j int :: 0 <= j && j < len(s.order) ==> !(s.order[j] in s.items && s.items[s.order[j]].State == StateQueued)) && (forall id2 string :: ((id2 in s.items) <==> old(id2 in s.items)) && s.items[id2] == old(s.items[id2])) && leasesSame(s) && lastEvicted == old(lastEvicted)
 //@   ensures [wf] wf(s)
 
+// memory-pressure accounting reads the store and changes nothing (frame obligations only)
+//@ func envelopeRetainedBytes
+//@ func (*MemoryStore).memoryInventoryLocked
+//@   monitor locked
+//@   requires s != nil
+//@   loop 1 invariant [own_maps] inv.itemsByState != nil && fresh(inv.itemsByState) && inv.retainedBytesByState != nil && fresh(inv.retainedBytesByState)
+//@ func (*MemoryStore).effectiveMemoryPressureItemLimitLocked
+//@   monitor locked
+//@   requires s != nil
+//@ func (*MemoryStore).effectiveMemoryPressureBytesLimitLocked
+//@   monitor locked
+//@   requires s != nil
 //@ func (*MemoryStore).memoryPressureStatusLocked
 //@   monitor locked
-//@   trusted
 //@   requires s != nil
+//@   ensures [C12:pressure_only_when_a_retained_limit_is_reached] result.Active ==> result.RetainedItemLimit > 0 && result.RetainedItems >= result.RetainedItemLimit || result.RetainedBytesLimit > 0 && result.RetainedBytes >= result.RetainedBytesLimit
 
 //@ spec
 //@ pred enqueueable(env Envelope) := env.LeaseID == "" && env.LeaseUntil == 0 && env.Attempt >= 0 && (env.State == "" || env.State == StateQueued || env.State == StateDead || env.State == StateDelivered || env.State == StateCanceled)
